@@ -71,3 +71,6 @@ package selftest
 
 //@ func GoodExplicitPanic
 //@   requires x != 42
+
+//@ func BadByteAlias
+//@   ensures len(b) > 0 ==> result == 7
